@@ -110,16 +110,28 @@ pub fn selector_reuse(ctx: &mut Ctx, enc: &[u8], other: &[u8], text: &str, info:
                 let r = sel.select(d, &mut data, &mut offsets).map_err(|e| format!("{:?}", e));
                 (r, data, offsets, sel.exists(d).ok(), sel.predicate_match(d).ok())
             };
+            // the same two documents through selectors made for one call each
+            let fresh = |d: &[u8]| {
+                let p = parse_json_path(text.as_bytes()).ok()?;
+                let one = Selector::new(p, mode_of(m));
+                let (mut data, mut offsets) = (Vec::new(), Vec::new());
+                let r = one.select(d, &mut data, &mut offsets).map_err(|e| format!("{:?}", e));
+                Some((r, data, offsets, one.exists(d).ok(), one.predicate_match(d).ok()))
+            };
+            let (f_enc, f_other) = (fresh(enc)?, fresh(other)?);
             let first = run(enc);
-            let _ = run(other);
+            let second = run(other);
             let again = run(enc);
-            Some((first, again))
+            Some(((f_enc.clone(), first), (f_other, second), (f_enc, again)))
         });
         match r {
             Err(p) => ctx.panic_violation(&format!("Selector({}) reused", MODE_NAMES[m]), &p, info),
-            Ok(Some((first, again))) => {
-                if first != again {
-                    ctx.violation("selector-reuse/depends-on-earlier-document", || format!("mode {}: first {:?} ; after another document {:?} ; other={} ; {}", MODE_NAMES[m], first, again, hex(other), info()));
+            Ok(Some(steps)) => {
+                for (k, (fresh, got)) in [steps.0, steps.1, steps.2].iter().enumerate() {
+                    if fresh != got {
+                        ctx.violation("selector-reuse/depends-on-earlier-document", || format!("mode {}: call {} of [document, other, document] on one Selector gives {:?} ; a Selector of its own gives {:?} ; other={} ; {}", MODE_NAMES[m], k + 1, got, fresh, hex(other), info()));
+                        break;
+                    }
                 }
             }
             Ok(None) => {}
